@@ -37,6 +37,10 @@ func (p *BinaryProtocol) Skip(wireType proto.WireType, useNative bool) (err erro
 		_, err = p.SkipFixed64Type() // the same as p.ReadFixed64Type() but without slice bytes
 	case proto.BytesType:
 		_, err = p.SkipBytesType() // the same as p.ReadBytesType() but without slice bytes
+	default:
+		// groups (3, 4) are not supported and 6, 7 are not wire types at all: nothing can be
+		// skipped, so the value must not be reported as skipped
+		err = errInvalidDataType
 	}
 	return
 }
